@@ -631,6 +631,11 @@ func (s *State) Revert(
 		return fmt.Errorf("remove declared classes: %v", err)
 	}
 
+	err = s.removeDeployedContractClasses(blockNumber, update.StateDiff.DeployedContracts)
+	if err != nil {
+		return fmt.Errorf("remove deployed contract classes: %v", err)
+	}
+
 	err = s.revertMigratedCasmClasses(update.StateDiff.MigratedClasses)
 	if err != nil {
 		return fmt.Errorf("revert migrated casm classes: %v", err)
@@ -737,6 +742,31 @@ func (s *State) removeDeclaredClasses(
 		}
 	}
 	return classesCloser()
+}
+
+// removeDeployedContractClasses removes the classes that were registered together with the
+// block for its deployed contracts (see Update): they are not listed among the declared classes.
+func (s *State) removeDeployedContractClasses(
+	blockNumber uint64,
+	deployedContracts map[felt.Felt]*felt.Felt,
+) error {
+	for _, cHash := range deployedContracts {
+		declaredClass, err := s.Class(cHash)
+		if errors.Is(err, db.ErrKeyNotFound) {
+			continue
+		}
+		if err != nil {
+			return fmt.Errorf("get class %s: %v", cHash, err)
+		}
+		if declaredClass.At != blockNumber {
+			continue
+		}
+
+		if err = s.txn.Delete(db.ClassKey(cHash)); err != nil {
+			return fmt.Errorf("delete class: %v", err)
+		}
+	}
+	return nil
 }
 
 func (s *State) purgeContract(addr *felt.Felt) error {
